@@ -192,6 +192,9 @@ func planC10(prop string, seed uint64, tier string, idx int) *Plan {
 	if idx%8 == 7 {
 		return concSlice(prop, seed, tier, idx)
 	}
+	if idx%8 == 4 {
+		return planC10Entries(prop, seed, tier)
+	}
 	g := newGen(seed, tier)
 	g.p.Engine = "diff"
 	g.p.Profile = "dir vs mem, restarts"
@@ -266,6 +269,55 @@ func planC10(prop string, seed uint64, tier string, idx int) *Plan {
 			g.add(g.readOp(repo))
 		default:
 			g.gcHistoryOp(repo, images, indexes, arts, extra)
+		}
+	}
+	g.add(Op{K: "check"})
+	return g.finish(prop, "stores-compared")
+}
+
+// planC10Entries: three tags on two or three manifests in one repository, no collection: the same few index.json entries are
+// retagged, untagged, removed and re-added over and over, and the file is looked at (check) and read back (restart) all
+// the time. What index.json looks like depends on entry order and on the leftovers of earlier operations.
+func planC10Entries(prop string, seed uint64, tier string) *Plan {
+	g := newGen(seed, tier)
+	g.p.Engine = "diff"
+	g.p.Profile = "dir vs mem, restarts: few index entries reworked"
+	g.repos(1)
+	g.tagPool = []string{"t", "t0", "tx"}
+	g.fewTags = true
+	var imgs []int
+	for i := g.r.between(2, 3); i > 0; i-- {
+		share := -1
+		if len(imgs) > 0 {
+			share = imgs[0]
+		}
+		imgs = append(imgs, g.newImage(-1, share))
+	}
+	n := g.scale(g.r.between(8, 24))
+	for i := 0; i < n; i++ {
+		switch g.r.intn(12) {
+		case 0, 1, 2, 3, 4:
+			tag := g.tagPool[g.r.intn(len(g.tagPool))]
+			if g.r.chance(35) {
+				tag = g.anyTag(0)
+			}
+			g.pushManifest(0, imgs[g.r.intn(len(imgs))], tag, false)
+		case 5:
+			g.pushManifest(0, imgs[g.r.intn(len(imgs))], "", false)
+		case 6, 7:
+			g.add(Op{K: "del", Mode: "tag", Repo: 0, Tag: g.anyTag(0)})
+		case 8:
+			if m, ok := g.pushedMan(0); ok {
+				g.add(Op{K: "del", Mode: "man", Repo: 0, Obj: m})
+				delete(g.mansIn[0], m)
+			}
+		case 9:
+			g.add(Op{K: "check"})
+		case 10:
+			g.add(Op{K: "restart"})
+			g.add(g.tagsOp(0))
+		default:
+			g.add(g.readOp(0))
 		}
 	}
 	g.add(Op{K: "check"})
